@@ -591,6 +591,9 @@ func runCase(s *hx.Session, c caseSpec) error {
 		switch st.kind {
 		case "adv":
 			w.advance(st.adv)
+			if c.world == "mem" {
+				s.Hit("mem_real_sleep")
+			}
 			if c.world == "redis" {
 				or.nowMs += st.adv
 			} else {
@@ -616,6 +619,19 @@ func runCase(s *hx.Session, c caseSpec) error {
 				if len(hints) > 0 {
 					s.Hit("mem_eviction_observed")
 					interesting = true
+				}
+				if mw := w.(*memWorld); true {
+					n := 0
+					for k := range mw.entries() {
+						if k/100000 == st.keys[0]/100000 {
+							n++
+						}
+					}
+					if n > c.capacity {
+						s.Hit("mem_shard_over_capacity_all_candidates_live")
+					} else if n == c.capacity {
+						s.Hit("mem_shard_at_capacity")
+					}
 				}
 			}
 			s.Op(line, fmt.Sprintf("%s %d", b01(ok), ow))
